@@ -24,6 +24,9 @@ CHECKS = {
  "C10": ("exploration", "bounded-exhaustive input enumeration on the real parser with a structural losslessness oracle on every tree",
          "Same text spaces as C09; on every produced tree the oracle checks leaf concatenation == source, children tile parents, widths, per-leaf text vs span, root span. Exhaustive within the stated bound (exhaustive:true unless the wall cap is hit).",
          "Texts outside the enumerated spaces are not covered.", "DESIGN.md §3 C10"),
+ "C11": ("exploration", "bounded-exhaustive enumeration of formatter configurations (every max_line_length 1..120, 2^6 option product) and single-point layout deviations over corpus files, on the real formatter",
+         "For every (text, configuration) of the enumerated space the output is re-parsed, re-formatted and compared token-by-token (comments word-wise) with the input; under sort/merge the comparison is on multisets of expanded use leaves and items. The width sweep is exhaustive because break-point choice is a function of the width - the place where oscillation hides.",
+         "Comments compared word-wise (re-wrapping is layout); inputs with parse diagnostics skipped; layout deviations bound 1 (2 in thorough for tiny seeds).", "DESIGN.md §3 C11"),
  "C14": ("exploration", "exhaustive single-point mutation enumeration of corpus Sierra programs and serialized classes, executed on the real registry/metadata/compile pipeline",
          "Every mutant of every corpus program (and every position x boundary value of its felt serialization) runs through ProgramRegistryInfo::new, calc_metadata (both solver families), compile, extract_sierra_program and CasmContractClass::from_contract_class under catch_unwind + fatal-signal handler + address-space cap + watchdog. Findings are keyed by panic site.",
          "Corpus programs are seeds; multi-point mutants only in the thorough tier for small programs; 4 GiB address-space cap stands for 'allocates without bound'.", "DESIGN.md §3 C14"),
